@@ -48,6 +48,9 @@ type Slice struct {
 type Str struct {
 	conc  string
 	cells []*Term // non-nil => symbolic (len(cells) is the length)
+	// view != nil: the string was made by unsafe.String over live memory; cells is the snapshot taken
+	// when the value was last evaluated (eval refreshes it on every use)
+	view *Slice
 }
 
 func (s *Str) Len() int {
